@@ -74,7 +74,7 @@ def run_property(prop, repo_root, tier, seed, only=None, quiet=False, write=True
     wall = time.time() - t0
     if write:
         report.write_evidence(prop, tier, seed, obs, errors, wall, extra,
-                              spec.get("assumptions", []) + props.COMMON_ASSUMPTIONS, spec["explanation"])
+                              spec.get("assumptions", []) + props.COMMON_ASSUMPTIONS, spec["explanation"], n_known=len(known_hits))
     out = sys.stdout
     for o, k in known_hits:
         print("KNOWN-FINDING: property=%s %s [%s %s %s]" % (prop, k.get("what", o.reason), o.oid, o.function, o.construct), file=out)
